@@ -128,4 +128,165 @@ def check_etcd(prop, tier, seed):
         work.cleanup()
 
 
-REGISTRY = {"C16": check_etcd}
+ROLES = dict(Readers={"r1", "r2"}, MaxCommits=2, SingleFlight=True, SetRaises=False, GenHist=False)
+T_MON["C18"] = ["M_LeaderServes", "M_FollowerNeverWrites", "M_FollowerNeverStreamsOwnHistory", "M_FollowerForwards", "M_FollowerRejectsUnavailable",
+                "M_FollowerReadsAtLeaderRevision", "M_FollowerReadFailsWithoutLeader", "M_ProtocolReadServed"]
+T_MODULE["C18"] = "TraceRoles.tla"
+
+
+def roles_cfg(consts, invariants, view=True):
+    s = cfg_constants(consts) + "INIT PInit\nNEXT PNext\n"
+    if view:
+        s += "VIEW PView\n"
+    return s + "INVARIANTS " + " ".join(invariants) + "\nCHECK_DEADLOCK FALSE\n"
+
+
+def check_roles(prop, tier, seed):
+    t0 = time.time()
+    work = Work(prop)
+    violations = 0
+    quick = tier == "quick"
+    rnd = random.Random(seed)
+    try:
+        binp = build_harness(work)
+        cov = dict(states=0, transitions=0, traces_validated_against_impl=0, samples=[], evaluations=0,
+                   distinct_nontrivial=0, mc_runs=[], replay=[], exhaustive=False, known_findings=[])
+        table = ["FollowerNeverWrites", "FollowerNeverStreamsOwnHistory", "FollowerReadsSyncOrFail", "LeaderServes"]
+        r = tlc(work, "Roles.tla", roles_cfg(dict(ROLES, SingleFlight=False, SetRaises=True), table + ["ReadNotStale"]), timeout=1800, name="mcroles")
+        if r["violated"] or not r.get("ok"):
+            raise Undecided("TLC on Roles.tla: %s %s\n%s" % (r["violated"], r["error"], r["tail"][-2000:]))
+        cov["states"] += r["distinct"]; cov["transitions"] += r["states"]
+        cov["mc_runs"].append(dict(module="Roles.tla", config="decision table (14 methods x 2 roles x proxy x 3 leader states) + read protocol without shared fetches and with a raising store",
+                                   distinct_states=r["distinct"], states_generated=r["states"], invariants=table + ["ReadNotStale"]))
+        rc = tlc(work, "Roles.tla", roles_cfg(ROLES, ["ReadNotStale"]), timeout=1800, name="mcroles2")
+        cov["mc_runs"].append(dict(module="Roles.tla", config="read protocol as implemented (single flight, plain store), 2 reads, 2 leader commits",
+                                   counterexample_found=bool(rc["violated"]), note="explains known findings D11a / D11b; reproduced on the real revision syncer below"))
+        log("MC Roles.tla: table invariants hold; protocol as implemented: counterexample %s" % ("found (D11)" if rc["violated"] else "NOT found"))
+        # the table on the real handlers
+        d = work.sub("rolerun")
+        traces = []
+        for eng in (["memkv"] if quick else ["memkv", "tikv", "badger"]):
+            tr, rp = os.path.join(d, "roles_%s.ndjson" % eng), os.path.join(d, "roles_%s.json" % eng)
+            rcode, out = run([binp, "rolerun", "-engine", eng, "-out", tr, "-report", rp], env=GOENV, timeout=600)
+            if rcode != 0 or not os.path.exists(rp):
+                raise Undecided("rolerun failed: " + out[-1500:])
+            traces.append(tr)
+            rr = json.load(open(rp))
+            cov["evaluations"] += rr["behaviours"]; cov["distinct_nontrivial"] += rr["nontrivial"]
+            cov["replay"].append(dict(what="request handlers: every method x role x proxy x leader state", engine=eng, cases=rr["behaviours"]))
+        cov["samples"].append(json.loads(open(traces[0]).readline()))
+        # the read protocol on the real revision syncer: the complete behaviour space of the model
+        g = tlc(work, "Roles.tla", roles_cfg(dict(ROLES, GenHist=True), ["PDump"], view=False), workers=1, timeout=1800, name="genroles")
+        behs = parse_behaviours(g["outfile"])
+        if quick and len(behs) > 1500:
+            behs = rnd.sample(behs, 1500)
+        rep, ptraces, _ = seqrun(work, binp, behs, "memkv", 8, [], cmd="syncrun", name="syncrun")
+        cov["evaluations"] += rep.get("behaviours", 0); cov["distinct_nontrivial"] += rep.get("nontrivial", 0)
+        cov["exhaustive"] = not quick
+        cov["replay"].append(dict(what="follower read protocol on the real revision syncer (leader /status answer and every SetCurrentRevision are gates)",
+                                  behaviours=rep.get("behaviours", 0), executed=rep.get("agreed", 0), not_executable=rep.get("obs_mismatch", 0),
+                                  predicted_stale=sum(1 for b in behs if json.loads(b)["stale"]), notes=(rep.get("mismatch_notes") or [])[:2]))
+        cov["samples"].append(json.loads(behs[0]))
+        log("syncrun: %d protocol behaviours, %d executed on the real syncer" % (rep.get("behaviours", 0), rep.get("agreed", 0)))
+        if rep.get("obs_mismatch", 0) > rep.get("behaviours", 0) // 10:
+            raise Undecided("more than 10%% of the protocol behaviours could not be executed on the real syncer: %s" % (rep.get("mismatch_notes") or [])[:2])
+        allt = traces + ptraces
+        ntr, v = validate_all(work, allt, T_MON[prop], module="TraceRoles.tla", chunks=4)
+        cov["traces_validated_against_impl"] = ntr
+        if v:
+            violations += known_or_violation(prop, seed, v)
+        else:
+            for mon in ("M_ReadNotStaleSharedFetch", "M_ReadNotStaleLoweredRevision"):
+                _, vk = validate_all(work, ptraces, [mon], module="TraceRoles.tla", chunks=4)
+                if vk:
+                    rc2 = known_or_violation(prop, seed, vk)
+                    violations += rc2
+                    if rc2 == 0:
+                        cov["known_findings"].append(mon)
+        cov["rule"] = ("(a) every request type of both APIs x {leader, follower} x {proxy on, off} x {leader reachable, unreachable, answering with an error} on the "
+                       "real etcd.RPCServer / brain.Server with a recording backend, the real revision syncer and an HTTP /status endpoint; (b) behaviours of the "
+                       "follower read protocol (Roles.tla, complete space for 2 reads and 2 leader commits) executed on the real revision syncer; all distinct")
+        cov["monitors"] = T_MON[prop] + ["M_ReadNotStaleSharedFetch", "M_ReadNotStaleLoweredRevision"]
+        write_evidence(prop, tier, seed, cov, ["the leader is an HTTP endpoint that answers /status as server.revisionHandler does; the proxy is a recording stub"],
+                       time.time() - t0, violations)
+        return 1 if violations else 0
+    finally:
+        work.cleanup()
+
+
+T_MON["C20"] = ["M_Answered", "M_StillLive", "M_NoMetricPanic", "M_Validated", "M_MetricLabelsConsistent"]
+T_MODULE["C20"] = "TraceRequests.tla"
+
+
+def check_requests(prop, tier, seed):
+    t0 = time.time()
+    work = Work(prop)
+    violations = 0
+    quick = tier == "quick"
+    rnd = random.Random(seed)
+    try:
+        binp = build_harness(work)
+        cov = dict(states=0, transitions=0, traces_validated_against_impl=0, samples=[], evaluations=0,
+                   distinct_nontrivial=0, mc_runs=[], replay=[], exhaustive=True)
+        r = tlc(work, "Requests.tla", "INIT Init\nNEXT Next\nINVARIANTS EveryHandlerHasAcceptableRequests\nCHECK_DEADLOCK FALSE\n", timeout=1800, name="mcreq")
+        if r["violated"] or not r.get("ok"):
+            raise Undecided("TLC on Requests.tla: %s %s" % (r["violated"], r["error"]))
+        cov["states"] = r["distinct"]; cov["transitions"] = r["states"]
+        cov["mc_runs"].append(dict(module="Requests.tla", config="the abstract request space: 17 handlers, one class per field", requests=r["distinct"]))
+        g = tlc(work, "Requests.tla", "INIT Init\nNEXT Next\nINVARIANTS Dump\nCHECK_DEADLOCK FALSE\n", workers=1, timeout=1800,
+                extra=["-simulate", "num=1", "-depth", "1", "-seed", str(seed)], name="genreq")
+        reqs = parse_behaviours(g["outfile"])
+        log("Requests.tla: %d abstract requests" % len(reqs))
+        traces = []
+        d = work.sub("reqrun")
+        procs = []
+        engines = ["memkv", "tikv"] if quick else ["memkv", "tikv", "badger", "metrics"]
+        for i, eng in enumerate(engines):
+            # one long-lived node per engine; the order of the requests (the sequence the node sees) depends on the seed
+            order = list(reqs)
+            random.Random(seed * 31 + i).shuffle(order)
+            inp = os.path.join(d, "reqs_%s.ndjson" % eng)
+            with open(inp, "w") as f:
+                f.write("\n".join(order) + "\n")
+            tr, rp, pend = os.path.join(d, "req_%s.ndjson" % eng), os.path.join(d, "req_%s.json" % eng), os.path.join(d, "req_%s.pending" % eng)
+            c = [binp, "reqrun", "-in", inp, "-out", tr, "-report", rp, "-pending", pend, "-engine", eng]
+            procs.append((subprocess.Popen(["timeout", "900"] + c, stdout=subprocess.PIPE, stderr=subprocess.STDOUT, env=GOENV, text=True), eng, tr, rp, pend))
+        for p, eng, tr, rp, pend in procs:
+            out, _ = p.communicate()
+            if p.returncode != 0 or not os.path.exists(rp):
+                if os.path.exists(pend) and os.path.exists(tr):
+                    # the node died while serving a request: that is an answer the property forbids
+                    rq = json.loads(open(pend).read())
+                    with open(tr, "a") as f:
+                        f.write(json.dumps({"e": "Req", "req": rq, "outcome": "crash", "detail": "process ended (rc=%s)" % p.returncode, "live": False, "metric_panics": 0}) + "\n")
+                        f.write('{"e":"Reset"}\n')
+                    traces.append(tr)
+                    cov["replay"].append(dict(engine=eng, crashed_on=rq))
+                    continue
+                raise Undecided("reqrun failed on %s (rc=%s): %s" % (eng, p.returncode, (out or "")[-1500:]))
+            rr = json.load(open(rp))
+            traces.append(tr)
+            cov["evaluations"] += rr["behaviours"]; cov["distinct_nontrivial"] += rr["nontrivial"]
+            cov["replay"].append(dict(engine=eng, requests=rr["behaviours"], metric_names_emitted=rr["metric_names"]))
+        cov["samples"] = [json.loads(x) for x in reqs[:3]]
+        log("reqrun: %s" % cov["replay"])
+        ntr, v = validate_all(work, traces, T_MON[prop], module="TraceRequests.tla", chunks=len(traces))
+        cov["traces_validated_against_impl"] = ntr
+        if v:
+            violations += 1
+            report_violation(prop, seed, v)
+        cov["rule"] = ("every request of the abstract space of Requests.tla (17 handlers of both APIs; field classes: empty / normal / 0xff / low bytes / '$' keys, "
+                       "empty / normal / marker values, zero / past / current / future / negative / magic revisions, range ends, limits, transaction shapes incl. "
+                       "unsupported and nested ones, missing fields), instantiated and sent in a seed-dependent order to ONE long-lived node per engine running with the "
+                       "real Prometheus client; a liveness probe (create, wait committed, read, list) runs after every request")
+        cov["monitors"] = T_MON[prop]
+        write_evidence(prop, tier, seed, cov,
+                       ["'all metric emission call sites' is covered for the call sites the generated requests and the background loops reach (the emitted metric names are listed in the trace); call sites on paths these requests do not reach (leader election loss, TLS schema retries) are not exercised",
+                        "the metrics client is wrapped so that a panic inside it is recorded instead of ending the process"],
+                       time.time() - t0, violations)
+        return 1 if violations else 0
+    finally:
+        work.cleanup()
+
+
+REGISTRY = {"C16": check_etcd, "C18": check_roles, "C20": check_requests}
